@@ -214,28 +214,31 @@ type Msg struct {
 type Decision int
 
 const (
-	Forward     Decision = iota
-	CutBefore            // close both sides instead of forwarding this message
-	CutAfter             // forward it, then close both sides
-	Swallow              // do not forward, keep the connection
+	Forward   Decision = iota
+	CutBefore          // close both sides instead of forwarding this message
+	CutAfter           // forward it, then close both sides
+	Swallow            // do not forward, keep the connection
 )
 
 type Proxy struct {
-	Sock     string
-	upstream string
-	ln       net.Listener
-	mu       sync.Mutex
-	conns    int
-	Log      []Msg
-	Decide   func(m Msg) Decision
-	accept   bool
-	closed   bool
-	live     []net.Conn
-	wg       sync.WaitGroup
+	cond      *sync.Cond
+	Sock      string
+	upstream  string
+	ln        net.Listener
+	mu        sync.Mutex
+	conns     int
+	Log       []Msg
+	Forwarded []Msg // messages actually written to the other side
+	Decide    func(m Msg) Decision
+	accept    bool
+	closed    bool
+	live      []net.Conn
+	wg        sync.WaitGroup
 }
 
 func NewProxy(upstream string) *Proxy {
 	p := &Proxy{Sock: newSock(), upstream: upstream, accept: true}
+	p.cond = sync.NewCond(&p.mu)
 	ln, err := net.Listen("unix", p.Sock)
 	if err != nil {
 		panic(err)
@@ -307,6 +310,10 @@ func (p *Proxy) serve() {
 				if _, err := to.Write(append(raw, '\n')); err != nil {
 					return
 				}
+				p.mu.Lock()
+				p.Forwarded = append(p.Forwarded, m)
+				p.cond.Broadcast()
+				p.mu.Unlock()
 				if d == CutAfter {
 					return
 				}
@@ -316,6 +323,32 @@ func (p *Proxy) serve() {
 		go pump("c2s", c, s)
 		go pump("s2c", s, c)
 	}
+}
+
+// WaitFor blocks until pred (evaluated with the proxy locked, on the forwarded messages) holds or the timeout expires.
+func (p *Proxy) WaitFor(pred func(fwd []Msg) bool, timeout time.Duration) bool {
+	deadline := time.Now().Add(timeout)
+	done := make(chan struct{})
+	defer close(done)
+	go func() {
+		// wake the waiter up at the deadline
+		select {
+		case <-time.After(timeout):
+			p.mu.Lock()
+			p.cond.Broadcast()
+			p.mu.Unlock()
+		case <-done:
+		}
+	}()
+	p.mu.Lock()
+	defer p.mu.Unlock()
+	for !pred(p.Forwarded) {
+		if time.Now().After(deadline) {
+			return false
+		}
+		p.cond.Wait()
+	}
+	return true
 }
 
 // SetAccept makes the proxy accept (or refuse) new connections.
@@ -336,6 +369,12 @@ func (p *Proxy) Messages() []Msg {
 	p.mu.Lock()
 	defer p.mu.Unlock()
 	return append([]Msg{}, p.Log...)
+}
+
+func (p *Proxy) ForwardedMsgs() []Msg {
+	p.mu.Lock()
+	defer p.mu.Unlock()
+	return append([]Msg{}, p.Forwarded...)
 }
 
 func (p *Proxy) Conns() int { p.mu.Lock(); defer p.mu.Unlock(); return p.conns }
